@@ -28,7 +28,8 @@ CLAIMED = {
         "comma_without_space (decide +kernel against the registry and character classes regenerated from /repo), regex_sources_known (pins the two regex sources the hand "
         "model stands for). Correspondence on every run: ~470 programs (multi-finding statements on 1-5 lines x comment texts x placements) scanned with and without "
         "--ignore-nosec by real bandit and the compiled Lean model (findings + both counters), 1500 random comments through _parse_nosec_comment vs the model, and an "
-        "independent spec oracle written from the documented grammar evaluated on the implementation's output."),
+        "independent spec oracle written from the documented grammar evaluated on the implementation's output."
+        " NEW: parse_is_grammar / gen_parse_is_grammar — Nosec.parse's result for EVERY comment text equals a declarative reading (Spec.NosecReads: leftmost '#\\s*nosec', the ':?\\s*([^#]+)?#?' tail, tokenisation captures_is_tokenisation, registry look-up; blanket iff nothing known: blanket_iff_nothing_known); lean/Bandit/Spec/NosecGrammar.lean."),
   technique="Lean 4 proof (induction over traversal, case analysis on the tester) + differential correspondence",
   design="DESIGN.md section 7 C02"),
  "C05": dict(
@@ -71,7 +72,8 @@ CLAIMED = {
         "value as _get_literal_value computes it (numbers, list/tuple displays, True/False/None), for arbitrary user configuration lists; gen_defaults_cover_published (decide +kernel over the defaults "
         "regenerated from /repo). The empty tuple/set defect of the pinned commit was repaired (fix: commit 7485772). Correspondence on every run: every configured function (default and a user-supplied "
         "configuration) x 4 import spellings x 19 first-argument shapes x 24 shell= values x single/multi-line layouts (quick: seeded sample ~1100 programs; thorough: ~23000) — real bandit vs the "
-        "compiled Lean model on (id, severity, confidence, line, range, col) and vs an independent Python transcription of the property's table (incl. B609 and keyword-line location)."),
+        "compiled Lean model on (id, severity, confidence, line, range, col) and vs an independent Python transcription of the property's table (incl. B609 and keyword-line location)."
+        " NEW: b609_table (closed form of the wildcard check), full_path_match_is_pattern + full_path_source_known (the B607 matcher is its regex, for every string)."),
   technique="Lean 4 proof (closed-form decision tables) + differential correspondence over the call grammar",
   design="DESIGN.md section 7 C14"),
  "C20": dict(
@@ -152,7 +154,8 @@ CLAIMED = {
         "an expression statement is never offered to a check; otherwise it is checked with its parent's line range), b105_assign, b106_fires / b106_silent (first matching keyword with a string literal), "
         "gen_tmp_dirs_cover_published. The positional-only misattribution of B107 in the pinned commit was repaired (fix: commit 2542a3e) and the model follows. Correspondence on every run: 37 identifiers "
         "(matching / near-matching / case variants) x string literals x the five positions (+ positional-only parameters, non-literal values, docstrings), chmod modes (quick: boundary set + 256 seeded; thorough: "
-        "all 4096) in three spellings, a user temp-dir configuration, the quoted literal in the message, and 4000 (thorough 20000) generated identifiers through RE_CANDIDATES vs the documented regex vs the Lean matcher."),
+        "all 4096) in three spellings, a user temp-dir configuration, the quoted literal in the message, and 4000 (thorough 20000) generated identifiers through RE_CANDIDATES vs the documented regex vs the Lean matcher."
+        " NEW: candidate_is_pattern — for EVERY string, isCandidate holds iff the case-folded string contains a word of the documented language (pas+wo?r?d|pass(phrase)?|pwd|token|secrete?) delimited by the string ends or '_' (Spec.CandidateSpec); word_rests_are_language, documented_words_are_candidates, not_candidate_without_stem."),
   technique="Lean 4 proof (bit-level table for all naturals, decision lemmas) + differential correspondence",
   design="DESIGN.md section 7 C16"),
  "C03": dict(
@@ -201,8 +204,9 @@ CLAIMED = {
         "equivariant_findings, insert_shifts, insert_finding, insert_above_unchanged, insert_below_shifts, insert_inside_grows, nosecMoved_exists; lemmas in lean/Bandit/Proofs/Renum.lean): for ANY "
         "strictly monotone renumbering of the lines (inserting k lines before line L is one) the traversal yields the same events — findings, nosec-withheld findings, skipped tests, crashes, same order, "
         "test, severity, confidence, column — with every line moved along the renumbering and every range mapped as the interval between its moved end points; unbounded in tree, comments and check "
-        "list. Hypotheses: TreeWF (two CPython facts asserted by astser.check_wf on every tree), CheckCovered per check (position-blind or PosInvariant, locating relative to the node: proved in "
-        "lean/Bandit/Proofs/RelLoc.lean for the misc, shell and blacklist checks — core_checks_covered_partial; B608/B703 and the other families being added), NosecMoved (inserted lines carry no nosec "
+        "list. Hypotheses: TreeWF (two CPython facts asserted by astser.check_wf on every tree), CheckCovered per check (position-blind or PosInvariant, locating relative to the node: proved for EVERY "
+        "check of the real test set incl. the position-using B608/B703 — all_checks_covered, equivariant_bandit; lean/Bandit/Proofs/RelLoc.lean, PosInv.lean); the file-level B613 has its own "
+        "insertion theorem b613_insert_shifts, NosecMoved (inserted lines carry no nosec "
         "comment), FallbackOK (the absolute fallback range [0,1] of position-less nodes: nothing inserted before line 2, or no check registered for such nodes). The shift clause is additionally "
         "decided by correspondence: every safe insertion point (between statements and inside bracketed expressions) x blank/whitespace/comment text x k in {1,3} on programs "
         "with multi-line constructs — real bandit vs the expected interval-shift image and vs the compiled Lean model; plus per-finding invariants and excerpts for -n in {0,1,2,3,5,10} "
@@ -253,13 +257,18 @@ CLAIMED = {
   technique="Lean 4 proof (decision tables, induction over the SQL matcher and the B703 recursion, decide +kernel examples) + differential correspondence with spec oracle",
   design="DESIGN.md section 7 C17"),
  "C06": dict(
-  text=("Lean theorems (lean/Props/C06.lean; a check 'raises' iff its model returns .error): evaluators_total — _get_literal_value, call_args, call_keywords, get_call_arg_at_position, "
+  text=("Lean theorems (lean/Props/C06.lean; a check 'raises' iff its model returns .error). HEADLINE scan_no_crash: for every tree with the shape CPython gives a parsed module (TreeShapeOK, a "
+        "decidable predicate evaluated by the driver on every real AST the harness serialises) and settings as the generator emits them (configOK, decided for the generated defaults), for every "
+        "profile filter, blacklist table, nosec map and file text, crashesOf (scanFile (testSet ...) inp) = [] — all 41 plugin checks and the blacklist wrapper, B703's recursion budget shown "
+        "sufficient (b703_total, b703_only_recursion_error); per-check bNNN_total theorems (lean/Bandit/Proofs/Total2.lean). CPython's recursion limit is outside the model: known finding "
+        "C06-recursion-limit (B608 on ~450+ operand concatenations, B703 on ~950+ alias chains). Further: evaluators_total — _get_literal_value, call_args, call_keywords, get_call_arg_at_position, "
         "get_call_arg_value, check_call_arg_value return on EVERY node (proved by induction over the nested tree type via Node.rec; set displays with unhashable elements included since /repo fix "
         "94606d1), no_crash_event (a check whose decision returns on a positioned node yields no internal-error event: the tester's own defaults cannot fail there), shell_checks_total, "
         "blacklist_total (__import__() / importlib.import_module() without a name included, /repo fix 24ed4b7), b106_total (f(**\"x\") included, fix c28be0a), b103_total, kw_checks_total, "
         "simple_checks_total, visited_has_parent (every visited node has a parent, by induction over the traversal); per-check totality / no-raise results of the other families are in Props.C15 "
         "(b505_classify_total, REG_* no-crash) and Props.C17 (b611_table 'never raises', NEG_b703_crashes for the pinned commit, b703_terminates_partial). PARTIAL: the model's knowledge of which Python "
-        "operations raise is hand-written. It is closed empirically on every run by the crash monitor: every callee spelling of bandit's examples + every blacklist qualified name + the names the "
+        "operations raise is hand-written. It is closed empirically on every run by the crash monitor (+ grammar-directed programs over every statement / target / expression kind with FULL model "
+        "correspondence, harness/pygen.py): every callee spelling of bandit's examples + every blacklist qualified name + the names the "
         "plugins key on (~400 callees) x an argument-shape grammar (0-3 positionals from 40 shapes incl. starred / unhashable set displays / walrus / lambdas, keywords from 31 keyed names, **dict / "
         "**\"x\" / **f()) + 56 statement shapes (defaults, handlers, string positions, SQL constructions, mark_safe data flows incl. the former non-terminating one) — a logged internal error, an escaped "
         "exception or a file demoted to skipped is a violation; the full Lean model (all 41 plugins + blacklist) is compared with real bandit on bandit's own examples (thorough: every .py of /repo). "
